@@ -9,6 +9,7 @@ From Verif Require Import Proofs.GraphProofs Proofs.SorterProofs Proofs.EngineTa
 Theorem C17_persist_spec : forall body c E dyn desel w t f,
   skipflag t dyn desel = false -> existsb (fun b => b) (m_skipif t) = false ->
   has_dyn MAncFailed (tid t) dyn = false ->
+  has_dyn MWould (tid t) dyn = false ->
   m_persist t = true -> all_exist E w t = true -> any_changed E w t = true ->
   run_task body c E dyn desel w t f =
   mkTres OPersist (if dry_run c then w else record_states E w t) [].
@@ -24,6 +25,7 @@ Proof. exact recorded_rows_match. Qed.
 Theorem C17_persist_then_unchanged : forall body c c' E dyn dyn' desel w t f f',
   skipflag t dyn desel = false -> existsb (fun b => b) (m_skipif t) = false ->
   has_dyn MAncFailed (tid t) dyn = false ->
+  has_dyn MWould (tid t) dyn = false ->
   m_persist t = true -> all_exist E w t = true -> any_changed E w t = true ->
   dry_run c = false ->
   force c' = false -> skipflag t dyn' desel = false ->
